@@ -26,6 +26,8 @@ JudgeEnc(e) ==
   /\ Report("C10:encodes", ~e.panic /\ ~e.cut)
   /\ (~e.panic /\ ~e.cut) =>
        /\ Report("C10:models_are_exactly_intended", sets = intended)
+       \* huge frameworks: every isolated argument is true in every model (observed by the harness; product theorem for the rest)
+       /\ ("fillers_ok" \in DOMAIN e) => Report("C10:isolated_arguments_in_every_model", e.fillers_ok)
        /\ Report("C10:distinct_literals", /\ Cardinality(ToSet(e.argvar)) = Len(e.argvar)
                                           /\ \A v \in ToSet(e.argvar) : v > 0
                                           /\ ToSet(e.argvar) \cap ToSet(e.rangevar) = {}
